@@ -51,6 +51,8 @@ func (s *Sim) disarm(t *TimerState) bool {
 
 // NewTimer creates a simulated timer; outside a simulation it returns nil
 // and the caller must fall back to the real clock.
+//
+//go:noinline
 func NewTimer(d time.Duration, f func()) *TimerState {
 	s := cur
 	if s == nil {
@@ -67,6 +69,8 @@ func NewTimer(d time.Duration, f func()) *TimerState {
 }
 
 // Stop implements time.Timer.Stop on the simulated clock.
+//
+//go:noinline
 func (t *TimerState) Stop() bool {
 	s := cur
 	if s == nil || s.poisoned {
@@ -86,6 +90,8 @@ func (t *TimerState) Stop() bool {
 }
 
 // Reset implements time.Timer.Reset on the simulated clock.
+//
+//go:noinline
 func (t *TimerState) Reset(d time.Duration) bool {
 	s := cur
 	if s == nil || s.poisoned {
